@@ -523,6 +523,22 @@ def offset_unions(ctx, n):
                 if len(u._buf) != size:
                     viol("coherence", "union-buffer-length-changed", step=step, got=len(u._buf), want=size)
                     return False
+                # dumping: the member the writer picks (the first of the largest ones) appears at *its* offset; every
+                # other byte is the union's byte or zero (K1: what the written member does not cover is not written)
+                sizes_ = [model.size_of(m["t"], cfg) for m in members]
+                pick = sizes_.index(max(sizes_))
+                po, ps = offs[pick], sizes_[pick]
+                try:
+                    d = u.dumps()
+                except Exception as e:  # noqa: BLE001
+                    viol("dump", f"offset-union-dump-raises:{type(e).__name__}", step=step, error=lib.exc_sig(e))
+                    return False
+                ctx.event("offset_union_dumps_checked")
+                if len(d) != size or d[po:po + ps] != bytes(shadow[po:po + ps]) or \
+                        any(d[j] not in (0, shadow[j]) for j in range(size)):
+                    viol("dump", "offset-union-dump-misplaces-the-written-member", step=step, got=d.hex(),
+                         written_member=members[pick]["name"], at=po)
+                    return False
                 return True
 
             if len(U) != size:
@@ -606,6 +622,94 @@ def held_reference(ctx):
             ctx.event("held_reference_writes_kept")
 
 
+def array_element_structures(ctx):
+    """Pinned witness of the open finding K15: an assignment through a structure that is an *element of an array
+    member* of the union (the statement: 'directly or through a nested structure').  After `u.s = u.s` the views
+    agree again, which is judged as well (so that only the missing write-back is attributed to the finding)."""
+    for endian in "<>":
+        text = "struct S { uint16 x; uint8 y; };\nunion A { S s[2]; uint16 w[3]; };"
+        ctx.evaluation(("array-element-structure", endian))
+        ctx.cell("route:structure-in-array-member")
+        det = {"text": text, "endian": endian, "workload": "array-element-structures"}
+        try:
+            cs = lib.load(text, endian, False, False)
+            a = cs.A(bytes(range(6)))
+            a.s[0].x = 0xAAAA
+            first = (int(a.w[0]), a.dumps()[:2])
+            a.s = a.s
+            second = (int(a.w[0]), a.dumps()[:2], int(a.s[0].x), int(a.s[1].y), int(a.w[2]))
+        except Exception as e:  # noqa: BLE001
+            ctx.violation("array-element", f"write-through-array-element-structure-raises:{type(e).__name__}",
+                          dict(det, error=lib.exc_sig(e)))
+            continue
+        w2 = int.from_bytes(bytes([4, 5]), "little" if endian == "<" else "big")
+        if second != (0xAAAA, b"\xaa\xaa", 0xAAAA, 5, w2):
+            ctx.violation("array-element", "array-member-assigned-back-does-not-reach-the-union", dict(det, got=repr(second)))
+        elif first != (0xAAAA, b"\xaa\xaa"):
+            ctx.violation("array-element", "K15:write-through-a-structure-inside-an-array-member-does-not-reach-the-union",
+                          dict(det, got=repr(first)))
+        else:
+            ctx.event("array_element_structure_writes_kept")
+
+
+def defaults_and_falsy_values(ctx):
+    """(a) A default-constructed union is all zeros and coherent whatever was done to an earlier default-constructed
+    one (its array and nested members edited in place, with and without assigning them back).
+    (b) Values that are falsy without being the zero value: -0.0 assigned to a float member sets the sign bit in every
+    view; an empty list is not a value of a fixed-size array member (refused, nothing changes)."""
+    import struct as _st
+
+    text = ("struct P { uint8 x; uint16 y; };\nunion U { uint32 a; uint8 c[4]; P p; float f; };\n"
+            "struct W { uint8 k; U u; U us[2]; };\nunion D { double d; uint64 i; float16 h[4]; };")
+    for endian in "<>":
+        ctx.evaluation(("defaults-and-falsy", endian))
+        ctx.cell("defaults-and-falsy-values")
+        det = {"text": text, "endian": endian, "workload": "defaults-and-falsy"}
+        try:
+            cs = lib.load(text, endian, False, False)
+            bo = "little" if endian == "<" else "big"
+            first = cs.U()
+            first.c[0] = 7
+            first.p.x = 9
+            w1 = cs.W()
+            w1.u.a = 0x01020304
+            w1.us[1].c[2] = 5
+            second, w2 = cs.U(), cs.W()
+            facts = {
+                "fresh default is zero": second.dumps() == bytes(4) and int(second.a) == 0 and list(second.c) == [0, 0, 0, 0]
+                and int(second.p.x) == 0 and int(second.p.y) == 0,
+                "fresh default of the container is zero": w2.dumps() == bytes(len(cs.W)) and int(w2.u.a) == 0
+                and list(w2.us[1].c) == [0, 0, 0, 0],
+                "defaults are separate objects": first.c is not second.c and w1.us is not w2.us and w1.us[1] is not w2.us[1],
+            }
+            u = cs.U(bytes([0x11, 0x22, 0x33, 0x44]))
+            u.f = -0.0
+            neg = _st.pack(endian + "f", -0.0)
+            facts["-0.0 sets the sign bit in every view"] = (u.dumps() == neg and int(u.a) == int.from_bytes(neg, bo)
+                                                             and list(u.c) == list(neg))
+            facts["-0.0 constructed"] = cs.U(f=-0.0).dumps() == neg
+            d = cs.D(bytes(range(1, 9)))
+            d.d = -0.0
+            facts["-0.0 double"] = d.dumps() == _st.pack(endian + "d", -0.0) and int(d.i) == 1 << 63
+            d.h = [-0.0, 0.0, -0.0, 1.0]
+            facts["-0.0 float16 elements"] = d.dumps() == _st.pack(endian + "4e", -0.0, 0.0, -0.0, 1.0)
+            v = cs.U(bytes([1, 2, 3, 4]))
+            try:
+                v.c = []
+                facts["empty list refused for a fixed array member"] = False
+            except Exception:  # noqa: BLE001
+                facts["empty list refused for a fixed array member"] = (v.dumps() == bytes([1, 2, 3, 4])
+                                                                        and list(v.c) == [1, 2, 3, 4])
+        except Exception as e:  # noqa: BLE001
+            ctx.violation("defaults", f"defaults-and-falsy-values-raise:{type(e).__name__}", dict(det, error=lib.exc_sig(e)))
+            continue
+        bad = sorted(k for k, ok in facts.items() if not ok)
+        if bad:
+            ctx.violation("defaults", "union-default-or-falsy-value-handling-differs", dict(det, failed=bad))
+        else:
+            ctx.event("defaults_and_falsy_values_checked")
+
+
 def assign_back(ctx):
     """An array member edited in place is committed by assigning it to the member again (the very same list object,
     or a fresh list equal to it): the assignment must rebuild the union although the value 'did not change'."""
@@ -648,6 +752,8 @@ def run(ctx):
             witnesses(ctx)
             held_reference(ctx)
             assign_back(ctx)
+            array_element_structures(ctx)
+            defaults_and_falsy_values(ctx)
         if ctx.shard % 4 == 1:
             offset_unions(ctx, 12 if not ctx.thorough else 150)
         for i in range(N_CASES[ctx.tier]):
@@ -665,6 +771,12 @@ def run(ctx):
 def replay(ctx, detail):
     if detail.get("workload") == "held-reference":
         held_reference(ctx)
+        return
+    if detail.get("workload") == "defaults-and-falsy":
+        defaults_and_falsy_values(ctx)
+        return
+    if detail.get("workload") == "array-element-structures":
+        array_element_structures(ctx)
         return
     if detail.get("workload") == "assign-back":
         assign_back(ctx)
